@@ -191,5 +191,38 @@ CHECKS["C20"] = {
             "environmental in the evidence.",
     "technique": "Lean 4 theorems over definitions translated from /repo on every run + bit-level correspondence with /repo",
 }
+CHECKS["C07"] = {
+    "level": "proof",
+    "text": "Kernel-checked theorems over the bookkeeping model of IntegratorLearner, for every number type, every oracle for the "
+            "abscissae and for the numeric outcome of complete_process, all parameters and every history of tell (any abscissa) / ask "
+            "(any size, committing or rolled back) / tie re-ordering: no abscissa is pushed or handed out twice; a foreign abscissa is "
+            "rejected with the state unchanged; no AssertionError/KeyError site of the learner is reachable (nested abscissae assumed); "
+            "igral/err are the sums over the approximating intervals. PARTIAL: `done_leaves is a cut of the subtree` is proved only as "
+            "soundness of a decidable check that the driver evaluates on reached states (integ_cut_partition_partial). Tie: bit-exact "
+            "lock-step of ask results, complete_process call order, approximating intervals, npoints, pending, done(), igral/err, error "
+            "class. Search: the property's clauses on the real learner after every operation; regression corpus of four repaired defects.",
+    "design_ref": "DESIGN.md section 6 C07",
+    "note": "Trusted: Lean kernel, standard axioms, hand model Integ.lean tied by differential testing with everything numeric as a "
+            "recorded oracle (harness/integ_drive.py wrappers), constants ns/ndiv_max asserted at run time, SortedSet(key=rdepth) order, "
+            "tie order after a rolled-back ask taken from the code (relational). Reading: the partition clause applies whenever the set "
+            "of approximating intervals is non-empty. Histories stop at the first divergence / NaN error estimate.",
+    "technique": T,
+}
+CHECKS["C08"] = {
+    "level": "other",
+    "text": "Partial. Kernel-checked real-analysis skeleton only (Mathlib intervalIntegral): adjacent pieces from a to b and per-piece "
+            "validity of the local estimate imply |int f - igral| <= err, and with done()'s disjunct err < |igral|*tol <= max(err, tol*|igral|) "
+            "(integ_global_bound_partial and corollaries). Validity of Gonnet's estimator, the coefficient tables and floating point are NOT "
+            "proved: covered by testing - 8 closed-form families (poly <=12, exp, sin, Lorentzian, Gaussian, inverse-sqrt end-point "
+            "singularity with f(a)=inf, kink, jump) x seeded parameters, tol 1e-10..1e-3, sequential and shuffled/partial delivery, "
+            "|igral-exact| <= max(err, tol*|exact|)+1e-13 when done(); differential igral/err vs adaptive/tests/algorithm_4.py for equal "
+            "evaluation counts (to convergence and at truncated loop counts).",
+    "design_ref": "DESIGN.md section 6 C08",
+    "note": "Trusted: Lean kernel, standard axioms; closed forms via math.erf/atan/expm1 and exact rationals; algorithm_4.py as reference. "
+            "Differential disagreements after either implementation has dropped an interval (different too-narrow rules: the reference "
+            "lacks abs() and tests stale points) are counted in the evidence, not failed.",
+    "technique": "Lean 4 theorem (real-analysis skeleton, hypothesis = estimator validity) + closed-form oracle + differential testing "
+                 "vs reference implementation",
+}
 _PENDING = "machinery for this property is not built yet in this commit (work in progress; see DESIGN.md section 9)"
 NOT_APPLICABLE = {f"C{i:02d}": _PENDING for i in range(1, 21) if f"C{i:02d}" not in CHECKS}
